@@ -18,11 +18,18 @@ theorem ProtoOk.mono {g g' : Graph} {a N lo p} (h : ProtoOk g a N lo p) (hn : g.
   | none => trivial
   | some p => obtain ⟨h1, h2, h3, h4, h5⟩ := h; exact ⟨h1, h2, h3, h4, by omega⟩
 
+/-- the inputs of a complete collector are exactly its recorded publishers -/
+theorem Coll.input_full {g : Graph} {W : World} {col gid a N ins} (h : Coll g W col gid a N N ins) {k : Nat} {q : PubRef}
+    (hq : g.inputOf col k = some q) : k < N ∧ q = ins k := by
+  by_cases hk : k < N
+  · rw [h.filled k hk] at hq; exact ⟨hk, (Option.some.inj hq).symm⟩
+  · rw [h.free k (by omega)] at hq; cases hq
+
 theorem fgenNext_spec {g : Graph} {W : World} (hi : Inv g W) (hw : Wired g) (sp : Option WRef) (a : Actor) (N lo : Nat)
     (hlo : lo ≤ g.next) (hp : ProtoOk g a N lo sp) :
     ∃ w g1, Run (fgenNext sp a N 1) g w g1 ∧ w.uid = g.next ∧ Inv g1 W ∧ Wired g1 ∧ Frame g g1 ∧ g.next < g1.next ∧
       lo ≤ w.gid ∧ Coll g1 W w.uid w.gid a N 0 (fun _ => default) ∧ ProtoOk g1 a N lo (some (sp.getD w)) ∧
-      g1.trains = g.trains := by
+      g1.trains = g.trains ∧ ∀ u k, g1.inputOf u k = g.inputOf u k := by
   have hb := hi.bounded
   have hnl : ¬ W.live g.next := fun h => by have := (hi.liveLt _ h).1; omega
   cases sp with
@@ -31,7 +38,8 @@ theorem fgenNext_spec {g : Graph} {W : World} (hi : Inv g W) (hw : Wired g) (sp 
     have hb1 : Bounded g1 := hb.bump.bump.pushNode _ (by gnext) (by intro _ _ _ _ h; cases h; gnext)
     have hf1 : Frame g g1 := (Frame.refl g).bump.bump.pushNode _ (Nat.le_refl _)
     refine ⟨⟨g.next, g.next + 1, a, N, 1⟩, g1, run_newWorker a N 1 g, rfl, hi.ofFrame hf1 hb1,
-      (hw.bump.bump.pushNode _), hf1, by show g.next < g.next + 1 + 1; omega, by show lo ≤ g.next + 1; omega, ?_, ?_, rfl⟩
+      (hw.bump.bump.pushNode _), hf1, by show g.next < g.next + 1 + 1; omega, by show lo ≤ g.next + 1; omega, ?_, ?_, rfl,
+      fun _ _ => rfl⟩
     · refine ⟨?_, hnl, by show g.next < g.next + 1 + 1; omega, fun k hk => absurd hk (Nat.not_lt_zero k), ?_⟩
       · glook [hb.kindOf_none (Nat.le_refl _)]
       · intro k _
@@ -44,7 +52,7 @@ theorem fgenNext_spec {g : Graph} {W : World} (hi : Inv g W) (hw : Wired g) (sp 
     have hb1 : Bounded g1 := hb.bump.pushNode _ (by gnext) (by intro _ _ _ _ h; cases h; gnext)
     have hf1 : Frame g g1 := (Frame.refl g).bump.pushNode _ (Nat.le_refl _)
     refine ⟨{ p with uid := g.next }, g1, run_fork p g, rfl, hi.ofFrame hf1 hb1, (hw.bump.pushNode _), hf1,
-      by show g.next < g.next + 1; omega, h4, ?_, ?_, rfl⟩
+      by show g.next < g.next + 1; omega, h4, ?_, ?_, rfl, fun _ _ => rfl⟩
     · refine ⟨?_, hnl, by show g.next < g.next + 1; omega, fun k hk => absurd hk (Nat.not_lt_zero k), ?_⟩
       · show g1.kindOf g.next = some (.worker p.gid a N 1)
         rw [← h1, ← h2, ← h3]
@@ -84,7 +92,9 @@ def baseApplyVal (reducer N : Nat) (foldSem : Nat → Sem) (B : Scope) : Val :=
   .apply reducer .none ((List.range N).map (fun k => (B (foldSem k).apply (foldSem k).train (foldSem k).label).apply))
 
 theorem basesLoop_spec (folds : List Fold) (stacker reducer : Nat) (tO aO : WRef) (hneO : tO.uid ≠ aO.uid) (aOut : Actor)
-    (Nb rr lo : Nat) (foldSem : Nat → Sem) (testV : Nat → Val) (lfuid : Nat) :
+    (Nb rr lo : Nat) (foldSem : Nat → Sem) (testV : Nat → Val) (lfuid : Nat) (gb : Graph) (a cc : Nat) (hwb : Wired gb)
+    (hbb : Bounded gb) (ha : a < gb.next) (hTu : gb.next ≤ tO.uid ∧ tO.uid < cc) (hAu : gb.next ≤ aO.uid ∧ aO.uid < cc)
+    (hfolds : ∀ f ∈ folds, FoldReach gb a lo f) (hnf : 0 < folds.length) :
     ∀ (pairs : List (GraphM Trunk × Scope)), (∀ p ∈ pairs, Spec True p.1 p.2 ∧ p.2.Indep) →
     ∀ (done : List Scope) (g : Graph) (W : World) (sp rp : Option WRef) (insT insA : Nat → PubRef) (R0 : Nat),
       Inv g W → Wired g → rr ≤ g.next → lo ≤ g.next → rr ≤ R0 →
@@ -94,6 +104,8 @@ theorem basesLoop_spec (folds : List Fold) (stacker reducer : Nat) (tO aO : WRef
       (∀ b, b < done.length → RefOk W (insT b) R0 ∧ RefOk W (insA b) R0) →
       (List.range done.length).map (fun b => W.σ (insT b)) = done.map (baseTrainVal stacker folds.length foldSem testV) →
       (List.range done.length).map (fun b => W.σ (insA b)) = done.map (baseApplyVal reducer folds.length foldSem) →
+      Frame gb g → cc ≤ g.next → AReg a lo gb.next cc g W →
+      (∀ b, b < done.length → Reach g a (insA b).node ∧ ¬ Reach g a (insT b).node ∧ cc ≤ (insA b).node ∧ cc ≤ (insT b).node) →
       ∃ g' W' insT' insA', Run (basesLoop folds ⟨stacker, false⟩ ⟨reducer, false⟩ tO aO done.length sp rp (pairs.map (·.1))) g () g' ∧
         LoopOk (fun u => u = tO.uid ∨ u = aO.uid) lo g g' W W' rr ∧
         Coll g' W' tO.uid tO.gid aOut Nb (done.length + pairs.length) insT' ∧
@@ -104,29 +116,32 @@ theorem basesLoop_spec (folds : List Fold) (stacker reducer : Nat) (tO aO : WRef
           (done ++ pairs.map (·.2)).map (baseTrainVal stacker folds.length foldSem testV) ∧
         (List.range (done.length + pairs.length)).map (fun b => W'.σ (insA' b)) =
           (done ++ pairs.map (·.2)).map (baseApplyVal reducer folds.length foldSem) ∧
+        AReg a lo gb.next cc g' W' ∧
+        (∀ b, b < done.length + pairs.length →
+          Reach g' a (insA' b).node ∧ ¬ Reach g' a (insT' b).node ∧ cc ≤ (insA' b).node ∧ cc ≤ (insT' b).node) ∧
         ∃ ts, g'.trains = g.trains ++ ts ∧ (∀ x ∈ ts, W'.live x.train.node ∧ W'.live x.label.node) ∧
           ts.map (trainedUnder W') = (pairs.map (·.2)).flatMap (fun B => (List.range folds.length).flatMap
             (fun k => (B (foldSem k).apply (foldSem k).train (foldSem k).label).states)) := by
   intro pairs
   induction pairs with
   | nil =>
-    intro _ done g W sp rp insT insA R0 hi hw _ _ _ _ hcT hcA _ _ href hvT hvA
+    intro _ done g W sp rp insT insA R0 hi hw _ _ _ _ hcT hcA _ _ href hvT hvA _ _ hareg hreach
     refine ⟨g, W, insT, insA, rfl, LoopOk.refl hi hw rr, by simpa using hcT, by simpa using hcA, ?_, by simpa using hvT,
-      by simpa using hvA, [], ?_, ?_, rfl⟩
+      by simpa using hvA, hareg, (fun b hb => hreach b (by simpa using hb)), [], ?_, ?_, rfl⟩
     · intro b hb
       obtain ⟨r1, r2⟩ := href b (by simpa using hb)
       exact ⟨⟨r1.1, by have := r1.2; omega⟩, ⟨r2.1, by have := r2.2; omega⟩⟩
     · simp
     · intro x hx; cases hx
   | cons pr rest ih =>
-    intro hsp done g W sp rp insT insA R0 hi hw hrr hlo hR0 hfv hcT hcA hpS hpR href hvT hvA
+    intro hsp done g W sp rp insT insA R0 hi hw hrr hlo hR0 hfv hcT hcA hpS hpR href hvT hvA hfb hcc hareg hreach
     obtain ⟨hspec, hindep⟩ := hsp pr List.mem_cons_self
     obtain ⟨base, B⟩ := pr
     simp only at hspec hindep
     have hlt : ∀ n, W.live n → n < g.next := fun n hn => (hi.liveLt n hn).1
     -- the two forks
-    obtain ⟨wS, g1, rS, euS, hi1, hw1, hf1, hn1, hgS, cS1, hpS1, htr1⟩ := fgenNext_spec hi hw sp ⟨stacker, false⟩ folds.length lo hlo hpS
-    obtain ⟨wR, g2, rR, euR, hi2, hw2, hf2, hn2, hgR, cR2, hpR2, htr2⟩ :=
+    obtain ⟨wS, g1, rS, euS, hi1, hw1, hf1, hn1, hgS, cS1, hpS1, htr1, hin1⟩ := fgenNext_spec hi hw sp ⟨stacker, false⟩ folds.length lo hlo hpS
+    obtain ⟨wR, g2, rR, euR, hi2, hw2, hf2, hn2, hgR, cR2, hpR2, htr2, hin2⟩ :=
       fgenNext_spec hi1 hw1 rp ⟨reducer, false⟩ folds.length lo (by omega) (hpR.mono hf1.next_le)
     have cS2 : Coll g2 W wS.uid wS.gid ⟨stacker, false⟩ folds.length 0 (fun _ => default) := cS1.frame hf2 (Agree.refl _ _)
     have hneSR : wS.uid ≠ wR.uid := by rw [euS, euR]; omega
@@ -177,10 +192,15 @@ theorem basesLoop_spec (folds : List Fold) (stacker reducer : Nat) (tO aO : WRef
         (cA3.free _ (Nat.le_refl _)) (by show wR.uid < g2.next; rw [euR]; omega)
     have hn4 : g.next + 2 ≤ g4.next := by rw [n4]; omega
     -- the fold loop of this base
-    obtain ⟨g5, W5, insS, insR, r5, hl5, cS5, cR5, hv5, ts5, hts5, hlive5, hmap5⟩ :=
+    have hnb := hfb.next_le
+    have hfb4 : Frame gb g4 := by
+      rw [hg4]; exact ((hfb.trans f02).pushEdge _ hTu.1).pushEdge _ hAu.1
+    obtain ⟨g5, W5, insS, insR, r5, hl5, cS5, cR5, hv5, hareg5, hreach5, ts5, hts5, hlive5, hmap5⟩ :=
       baseFoldsLoop_spec hspec hindep wS wR hneSR ⟨stacker, false⟩ ⟨reducer, false⟩ folds.length rr lo foldSem testV lfuid
+        gb a g4.next hwb hbb ha ⟨by rw [euS]; omega, by rw [euS]; omega⟩ ⟨by rw [euR]; omega, by rw [euR]; omega⟩
         folds 0 g4 W _ _ rr hi4 hw4 (by omega) (by omega) (Nat.le_refl _) hfv cS4 cR4 (fun k hk => absurd hk (Nat.not_lt_zero k))
-    simp only [Nat.zero_add] at cS5 cR5 hv5 hmap5
+        hfolds hfb4 (Nat.le_refl _) (AReg.init hi4.bounded (by omega)) (fun k hk => absurd hk (Nat.not_lt_zero k))
+    simp only [Nat.zero_add] at cS5 cR5 hv5 hmap5 hreach5
     have hn5 := hl5.next_le
     have hlt5 : ∀ n, W5.live n → n < g5.next := fun n hn => (hl5.inv.liveLt n hn).1
     -- the two forks become evaluable
@@ -324,13 +344,80 @@ theorem basesLoop_spec (folds : List Fold) (stacker reducer : Nat) (tO aO : WRef
         obtain ⟨a1, a2, a3⟩ := old7 q h.live
         exact ⟨a1, by rw [a3]; exact h.rank, by rw [a2]; exact h.val⟩) folds 0 hfv
     have hlen : (done ++ [B]).length = done.length + 1 := by simp
-    obtain ⟨g', W', insT', insA', hrun, hl', cT', cA', href', hvT', hvA', ts', hts', hlive', hmap'⟩ :=
+    -- the apply side after this round
+    have hXo : ∀ x, (x = tO.uid ∨ x = aO.uid) → gb.next ≤ x ∧ x < cc := by
+      intro x hx; rcases hx with e | e <;> rw [e] <;> assumption
+    have none5 : ∀ s k, g.next ≤ s → s < g4.next → s ≠ wS.uid → s ≠ wR.uid → g5.inputOf s k = none := by
+      intro s k h1 h2 h3 h4
+      rw [hl5.input s k h2 (fun hx => by rcases hx with e | e; exact h3 e; exact h4 e),
+        same4 s k (by omega) (by omega)]
+      rw [hin2, hin1]
+      exact hi.bounded.inputOf_none h1 k
+    have nS5 : ¬ Reach g5 a wS.uid := by
+      intro hre
+      rcases hre.inv with h | ⟨k, q, hq, hr⟩
+      · rw [euS] at h; omega
+      · obtain ⟨hk, e⟩ := cS5.input_full hq
+        rw [e] at hr
+        exact (hreach5 k hk).2.1 hr
+    have rR5 : Reach g5 a wR.uid := Reach.one (hreach5 0 hnf).1 (cR5.filled 0 hnf)
+    have hareg7 : AReg a lo gb.next cc g5 W7 := by
+      refine hareg.step hfb hwb hw hXo hl5'.input hl5'.inputMono hl7.agree ?_ ?_
+      · intro s k q hs hq
+        by_cases h4 : s < g4.next
+        · by_cases eS : s = wS.uid
+          · rw [eS] at hq
+            obtain ⟨hk, e⟩ := cS5.input_full hq
+            have := (hreach5 k hk).2.2.2
+            rw [e]; exact Or.inl (by omega)
+          · by_cases eR : s = wR.uid
+            · rw [eR] at hq
+              obtain ⟨hk, e⟩ := cR5.input_full hq
+              have := (hreach5 k hk).2.2.1
+              rw [e]; exact Or.inl (by omega)
+            · rw [none5 s k hs h4 eS eR] at hq; cases hq
+        · rcases hareg5.es s k q (by omega) hq with h | h
+          · exact Or.inl (by omega)
+          · exact Or.inr h
+      · intro n hn hre
+        by_cases h4 : n < g4.next
+        · by_cases eS : n = wS.uid
+          · exact absurd (eS ▸ hre) nS5
+          · by_cases eR : n = wR.uid
+            · refine ⟨(live7 _).mpr (Or.inl eR), ?_⟩
+              intro k q hq
+              rw [eR] at hq
+              obtain ⟨hk, e⟩ := cR5.input_full hq
+              rw [e]; exact (hreach5 k hk).1
+            · exfalso
+              rcases hre.inv with h | ⟨k, q, hq, _⟩
+              · omega
+              · rw [none5 n k hn h4 eS eR] at hq; cases hq
+        · obtain ⟨l5, i5⟩ := hareg5.reg n (by omega) hre
+          exact ⟨(live7 _).mpr (Or.inr (Or.inr l5)), i5⟩
+    have hreach7 : ∀ b, b < done.length + 1 →
+        Reach g5 a ((fun k => if k = done.length then (⟨wR.uid, 0⟩ : PubRef) else insA k) b).node ∧
+        ¬ Reach g5 a ((fun k => if k = done.length then (⟨wS.uid, 0⟩ : PubRef) else insT k) b).node ∧
+        cc ≤ ((fun k => if k = done.length then (⟨wR.uid, 0⟩ : PubRef) else insA k) b).node ∧
+        cc ≤ ((fun k => if k = done.length then (⟨wS.uid, 0⟩ : PubRef) else insT k) b).node := by
+      intro b hb
+      by_cases hbd : b = done.length
+      · subst hbd
+        simp only [if_true]
+        exact ⟨rR5, nS5, by show cc ≤ wR.uid; rw [euR]; omega, by show cc ≤ wS.uid; rw [euS]; omega⟩
+      · simp only [hbd, if_false]
+        obtain ⟨h1, h2, h3, h4⟩ := hreach b (by omega)
+        refine ⟨h1.mono hl5'.inputMono, ?_, h3, h4⟩
+        intro hre
+        exact h2 (hareg.stable hfb hwb hw hXo hl5'.input (hlt _ (href b (by omega)).1.1) h4 hre)
+    obtain ⟨g', W', insT', insA', hrun, hl', cT', cA', href', hvT', hvA', hareg', hreach', ts', hts', hlive', hmap'⟩ :=
       ih (fun p hp => hsp p (List.mem_cons_of_mem _ hp)) (done ++ [B]) g5 W7 (some (sp.getD wS)) (some (rp.getD wR)) _ _
         (R0 + (g5.next - g.next)) hi7 hl5.wired (by omega) (by omega) (by omega) hfv7 (by rw [hlen]; exact cT7)
         (by rw [hlen]; exact cA7) (hpS1.mono (by omega)) (hpR2.mono (by omega)) (by rw [hlen]; exact href7) hvT7 hvA7
+        (hl5'.frameFrom hfb (fun x hx => (hXo x hx).1)) (by omega) hareg7 (by rw [hlen]; exact hreach7)
     have hn' := hl'.next_le
-    rw [hlen] at hrun cT' cA' href' hvT' hvA'
-    refine ⟨g', W', insT', insA', ?_, hl7.trans hl', ?_, ?_, ?_, ?_, ?_, ?_⟩
+    rw [hlen] at hrun cT' cA' href' hvT' hvA' hreach'
+    refine ⟨g', W', insT', insA', ?_, hl7.trans hl', ?_, ?_, ?_, ?_, ?_, hareg', ?_, ?_⟩
     · show Run (basesLoop folds ⟨stacker, false⟩ ⟨reducer, false⟩ tO aO done.length sp rp (base :: rest.map (·.1))) g () g'
       unfold basesLoop
       exact Run.bind rS (Run.bind rR (Run.bind r3 (Run.bind r4 (Run.bind r5 hrun))))
@@ -352,6 +439,8 @@ theorem basesLoop_spec (folds : List Fold) (stacker reducer : Nat) (tO aO : WRef
         simp; omega
       rw [this, hvA']
       simp [List.append_assoc]
+    · intro b hb
+      exact hreach' b (by simp at hb; omega)
     · have htr4 : g4.trains = g.trains := by rw [hg4]; show g2.trains = g.trains; rw [htr2, htr1]
       refine ⟨ts5 ++ ts', by rw [hts', hts5, htr4, List.append_assoc], ?_, ?_⟩
       · intro x hx
